@@ -126,6 +126,16 @@ def run(pid, tier):
                 subprocess.run('LC_ALL=C sort -u %s/y.raw > %s/y.ndjson; rm %s/y.raw' % (w, w, w), shell=True, check=True)
                 validate(rep, pid, w + '/y.ndjson', 'explore-A-no-error-callback')
                 os.unlink(w + '/y.ndjson')
+        if a == 'A':
+            # and in the build without device-dependent error information (its own branches in error.c)
+            exe3 = lib.build('drv_status', ['drv_status.c'], config='noinfo')
+            d3 = lib.run_driver(exe3, ['explore', w + '/ops.txt', cap, 400000, w + '/z.raw'])
+            if d3['rc'] != 0:
+                rep.violation('driver-failure', dict(alphabet=a, build='noinfo', rc=d3['rc'], stderr=d3['stderr'].decode(errors='replace')[-2000:]))
+            else:
+                subprocess.run('LC_ALL=C sort -u %s/z.raw > %s/z.ndjson; rm %s/z.raw' % (w, w, w), shell=True, check=True)
+                validate(rep, pid, w + '/z.ndjson', 'explore-A-noinfo')
+                os.unlink(w + '/z.ndjson')
         if not m and info['complete'] and len(proj) > r.distinct and not rep.viol and not rep.known_hits:
             rep.broken.append('alphabet %s: implementation reaches %d abstract states, specification %d' % (a, len(proj), r.distinct))
         os.unlink(w + '/x.ndjson')
